@@ -34,7 +34,7 @@ let run (cases : case list) =
     let exp_pongs = ref [] in       (* pongs owed: pings consumed by a read *)
     let exp_msgs = ref [] in        (* (read id, message) owed to reads *)
     let inq = ref [] in             (* peer frames not yet consumed by a read *)
-    let active = ref None in        (* the read in flight *)
+    let active = ref None in        (* the read in flight: id and buffer length *)
     let chains : (string, string * int) Hashtbl.t = Hashtbl.create 7 in
     let closed_by_us = ref false in
     let src_sim = ref [] in          (* frames the client has read from the socket and not decoded yet *)
@@ -42,9 +42,14 @@ let run (cases : case list) =
       let go = ref true in
       while !go do
         match !active, !src_sim with
-        | Some rid, (opc, p) :: r ->
+        | Some (rid, blen), (opc, p) :: r ->
           src_sim := r;
           if opc = "9" then (if not !closed_by_us then exp_pongs := !exp_pongs @ [Printf.sprintf "10:%s" p])
+          else if String.length p / 2 > blen then begin
+            (* the message does not fit the caller's buffer: the read fails (and, when its callback runs, the stream has
+               started the closing handshake: see the callback below) *)
+            exp_msgs := !exp_msgs @ [(rid, "err9")]; active := None
+          end
           else begin exp_msgs := !exp_msgs @ [(rid, Printf.sprintf "%s:%s" opc p)]; active := None end
         | _ -> go := false
       done in
@@ -54,7 +59,8 @@ let run (cases : case list) =
       bump (List.hd toks);
       let t = split_ws impl in
       let mop = (match toks with
-        | ["read"; id] -> Some (WaRead (z_of_string id))
+        | ["read"; id] -> Some (WaRead (z_of_string id, z_of_int 70000))
+        | ["readb"; id; n] -> Some (WaRead (z_of_string id, z_of_string n))
         | ["write"; id; n] -> Some (WaWrite (z_of_string id, gen_list (out_byte (int_of_string id)) (int_of_string n)))
         | ["peer"; opc; h] -> Some (WaPeer (z_of_string opc, zlist_of_hex h))
         | ["chain"; w; w2; n] -> Some (WaChain (z_of_string w, z_of_string w2, gen_list (out_byte (int_of_string w2)) (int_of_string n)))
@@ -84,7 +90,8 @@ let run (cases : case list) =
         if impl = "PANIC" then fail i "panic" op impl
         else begin
           (match toks with
-           | ["read"; id] -> Hashtbl.replace started id "read"; active := Some id
+           | ["read"; id] -> Hashtbl.replace started id "read"; active := Some (id, 70000)
+           | ["readb"; id; n] -> Hashtbl.replace started id "read"; active := Some (id, int_of_string n)
            | ["write"; id; n] ->
              if !closed_by_us then Hashtbl.replace started id "refused"
              else begin
@@ -98,7 +105,7 @@ let run (cases : case list) =
            | ["chain"; w; w2; n] -> Hashtbl.replace chains w (w2, int_of_string n)
            | ["poll"] -> if !active <> None then begin src_sim := !src_sim @ !inq; inq := [] end
            | _ -> ());
-          (match toks with ["poll"] | ["read"; _] -> drain () | _ -> ());
+          (match toks with ["poll"] | ["read"; _] | ["readb"; _; _] -> drain () | _ -> ());
           List.iter (fun tok ->
             if !oracle_live && String.length tok > 3 && String.sub tok 0 3 = "cb=" then
               match String.split_on_char ':' (String.sub tok 3 (String.length tok - 3)) with
@@ -110,7 +117,12 @@ let run (cases : case list) =
                   if Hashtbl.find started id = "read" then begin
                     (* 3: a read completes with the message the peer sent for it *)
                     match List.assoc_opt id !exp_msgs with
-                    | Some m -> if String.concat ":" rest <> m then fail i "3" op impl
+                    | Some m ->
+                      if String.concat ":" rest <> m then fail i "3" op impl
+                      else if m = "err9" && not !closed_by_us then begin
+                        (* the stream told the peer once, behind everything accepted before; from here on writes are refused *)
+                        closed_by_us := true; exp_writes := !exp_writes @ ["8:03e97061796c6f616420746f6f20626967"]
+                      end
                     | None -> fail i "3" op impl
                   end else if Hashtbl.find started id = "refused" then (if rest <> ["err2"] then fail i "6" op impl)
                   else if rest <> ["0"; "-"] then fail i "4" op impl
